@@ -1491,12 +1491,29 @@ fn scenario_overlap(ctx: &mut Ctx, seed: u64, mmap: bool) {
             }
             let g2 = gdir.clone();
             let rd2 = reader.clone();
-            let hb = std::thread::Builder::new().name("c05-rd-5-b".into()).spawn_scoped(sc, move || do_reload(&g2, &rd2)).unwrap();
+            let b_done = Arc::new(AtomicBool::new(false));
+            let bd = b_done.clone();
+            let hb = std::thread::Builder::new().name("c05-rd-5-b".into()).spawn_scoped(sc, move || {
+                let o = do_reload(&g2, &rd2);
+                bd.store(true, Ordering::SeqCst);
+                o
+            }).unwrap();
+            // if reloads of one reader were serialised (a repair of S5), B waits behind A
+            let deadline = Instant::now() + Duration::from_millis(2500);
+            while !b_done.load(Ordering::SeqCst) && Instant::now() < deadline {
+                std::thread::sleep(Duration::from_millis(2));
+            }
+            let b_finished_inside = b_done.load(Ordering::SeqCst);
+            ctx.report.count(if b_finished_inside { "overlap:B-completed-while-A-in-flight" } else { "overlap:B-blocked-behind-A" });
+            if b_finished_inside {
+                mid = Some(sig_of(&reader.searcher()));
+            }
+            {
+                let mut g = pauser.st.lock().unwrap();
+                g.resume = true;
+                pauser.cv.notify_all();
+            }
             ob = hb.join().ok();
-            mid = Some(sig_of(&reader.searcher()));
-            let mut g = pauser.st.lock().unwrap();
-            g.resume = true;
-            pauser.cv.notify_all();
         }
         (ha.join().ok(), ob, mid)
     });
@@ -1504,12 +1521,22 @@ fn scenario_overlap(ctx: &mut Ctx, seed: u64, mmap: bool) {
     gdir.set_read_hook(None);
     let final_searcher = reader.searcher();
     let mut observed: Vec<((u64, u64), Obs)> = vec![((5, 0), per[0].clone())];
-    // publication order as observed: B returned (and was visible) before A returned
-    if let Some(o) = &ob {
-        per.push(o.clone());
-    }
-    if let Some(o) = &oa {
-        per.push(o.clone());
+    // publication order as observed: B returned (and was visible) before A returned, unless B
+    // had to wait for A
+    if mid_sig.is_some() {
+        if let Some(o) = &ob {
+            per.push(o.clone());
+        }
+        if let Some(o) = &oa {
+            per.push(o.clone());
+        }
+    } else {
+        if let Some(o) = &oa {
+            per.push(o.clone());
+        }
+        if let Some(o) = &ob {
+            per.push(o.clone());
+        }
     }
     if let Some(o) = &oa {
         observed.push(((5, 1), o.clone()));
